@@ -1293,6 +1293,7 @@ func run(c *fw.Ctx) {
 	// entry-point dimension: the gateway write handler (last: it installs a latest state)
 	r.entryPoints(keys)
 	r.peerBatch(keys)
+	r.poolStates(keys)
 	c.Note("dirty_destination_note", "observation, not flagged (no admission path decodes into a reused object; upstream go-ethereum behaves the same): t := new(eth_tx.Transaction); rlp.DecodeBytes(encA, t); t.Hash() or eth_tx.Sender(signer, t); rlp.DecodeBytes(encB, t) => t.Hash() / Sender still answer for A (DecodeRLP does not reset the hash/from caches) while the fields are B's. Sign.GetR/GetS return big.Int values sharing words with the Sign (counter sign_getr_result_shares_words_with_sign).")
 	c.NontrivialN(r.nontriv)
 	c.Count("equivalent_reencodings_accepted(observation)", r.equivOK)
@@ -1327,7 +1328,7 @@ func main() {
 		ID: "C07", Level: "exploration",
 		Rule: "case = (key pair, honest transaction shape, height, one mutation). Honest bases are built by the harness's own SHA-256 / RLP / Keccak / wrapper reference and must be accepted by TransactionPool.VerifyTransaction. " +
 			"A mutant is counted when it differs from an accepted base in exactly one authenticated field (Data, Nonce, Source, Target, Type, Time, ExtraData, ChainId, Hash, Sign for native; Source, Target, Nonce, Data, Hash, ChainId, Type and the RLP payload for wrapped Ethereum transactions): every single-bit flip of the field, every value of a per-field substitution alphabet that differs from the original, " +
-			"plus recompute classes (content bit/field change with recomputed hash and the original signature; signed by another key; Source of another key; honestly signed for a foreign chain id or, for Ethereum payloads, without any chain id; height on the other side of the chain-id fork). Single-boundary re-partitions of the native digest preimage (bytes moved between two adjacent hashed fields, hash and signature unchanged) are executed and counted as an observation only: two fields change, outside the statement's quantifier. For two honestly signed Ethereum payloads (recovery id 0 and 1) the payload is re-encoded with every V of [0, 4c+200] (c = chain id) plus reflections around 2c+8 and far values (V +- 2^k, 2^256-1-k), consistently wrapped for each plausible declared chain id: accepted iff V is the honest one; the native recovery-id byte takes all 256 values. A grid of Ethereum payloads (recipient: none / zero address / 0x..01 / leading zero bytes / all-ff / ordinary; value 0, 1 wei, amounts with a non-zero 18th decimal; data empty / non-empty): eth_tx.ConvertTx of the decoded payload must equal the harness's reference wrapper field by field, the reference wrapper must be accepted, and every declared Target / value / data of the alphabet other than the signed one (in particular the empty Target versus the zero address) must be rejected. Key sweep: secret keys d = 1..2000 (20000 thorough), the check's keys and a few large ones: GetAddress / GetID must equal the reference keccak256(pad32(X)||pad32(Y))[12:]; for every key with a leading zero byte in X or Y and ten ordinary ones an honestly signed native and an EIP-155 transaction with Source = reference address must be accepted and the same content declared from any other derivation of the sender (unpadded coordinates, prefixed encoding, X only, other key) rejected; signatures with a leading zero byte in r or s found by sweeping nonces get the full mutant set. Entry points: besides TransactionPool.VerifyTransaction the gateway write handler GameExecutor.runWrite is driven for {UserId empty, non-empty} x {RequestId 0, non-zero} x {native event / contract / type 0, wrapped Ethereum} with a fresh honest transaction (must be known to and pending in the real pool afterwards) and ten native / eight Ethereum forgeries that VerifyTransaction refuses (must not be in the pool and must not move the sender's nonce in the latest state). Every such mutant must be rejected; a panic is not a rejection. " +
+			"plus recompute classes (content bit/field change with recomputed hash and the original signature; signed by another key; Source of another key; honestly signed for a foreign chain id or, for Ethereum payloads, without any chain id; height on the other side of the chain-id fork). Single-boundary re-partitions of the native digest preimage (bytes moved between two adjacent hashed fields, hash and signature unchanged) are executed and counted as an observation only: two fields change, outside the statement's quantifier. For two honestly signed Ethereum payloads (recovery id 0 and 1) the payload is re-encoded with every V of [0, 4c+200] (c = chain id) plus reflections around 2c+8 and far values (V +- 2^k, 2^256-1-k), consistently wrapped for each plausible declared chain id: accepted iff V is the honest one; the native recovery-id byte takes all 256 values. A grid of Ethereum payloads (recipient: none / zero address / 0x..01 / leading zero bytes / all-ff / ordinary; value 0, 1 wei, amounts with a non-zero 18th decimal; data empty / non-empty): eth_tx.ConvertTx of the decoded payload must equal the harness's reference wrapper field by field, the reference wrapper must be accepted, and every declared Target / value / data of the alphabet other than the signed one (in particular the empty Target versus the zero address) must be rejected. Key sweep: secret keys d = 1..2000 (20000 thorough), the check's keys and a few large ones: GetAddress / GetID must equal the reference keccak256(pad32(X)||pad32(Y))[12:]; for every key with a leading zero byte in X or Y and ten ordinary ones an honestly signed native and an EIP-155 transaction with Source = reference address must be accepted and the same content declared from any other derivation of the sender (unpadded coordinates, prefixed encoding, X only, other key) rejected; signatures with a leading zero byte in r or s found by sweeping nonces get the full mutant set. Entry points: besides TransactionPool.VerifyTransaction the gateway write handler GameExecutor.runWrite is driven for {UserId empty, non-empty} x {RequestId 0, non-zero} x {native event / contract / type 0, wrapped Ethereum} with a fresh honest transaction (must be known to and pending in the real pool afterwards) and ten native / eight Ethereum forgeries that VerifyTransaction refuses (must not be in the pool and must not move the sender's nonce in the latest state). Pool states: twins of an honest original (one authenticated field or the signature changed, declared hash kept or recomputed) are verified and offered (verify, add if verified) to isolated production-constructed pools in which the original is pending / executed / evicted by a block / evicted between verify and add, and delivered through runWrite and peerBatch after the original went through the same state on the node's pool: VerifyTransaction must refuse the twin in every state and the forged content must never be pending. Every such mutant must be rejected; a panic is not a rejection. " +
 			"Native transactions: the digest covers the raw bytes, so every byte change counts. Wrapped Ethereum transactions: the payload bytes are compared exactly (the declared hash is the Keccak of the payload bytes); " +
 			"a wrapper string (Source, Target, ChainId, Data JSON, hex spelling of ExtraData) that parses to the same content under the node's own parsing (hex case, 0X prefix, JSON key case, numerically equal chain id) and the v/v-27 spelling of the same recovery id are equivalent encodings: executed and counted, never flagged. " +
 			"Call-sequence part: for a fresh content per sequence, every ordered pair and triple of its related transactions (honest by A, honest by B with the same fields, content of A signed by B, recovery-id alias, mirrored signature, re-hashed data change, flipped signature bit; for Ethereum: honest A, honest B same content, B-signed declaring A, mirrored / corrupted signature re-hashed, wrapper nonce change) is verified in that order and the first one again: every verdict must be its class verdict whatever was verified before, arguments unchanged. " +
